@@ -177,6 +177,9 @@ func SolveAll(all []*Obligation, solv *Solvers) {
 			continue
 		}
 		todo = append(todo, o)
+		if o.Canary {
+			continue // built lazily, round by round
+		}
 		wg.Add(1)
 		go func(o *Obligation) {
 			defer wg.Done()
@@ -191,7 +194,7 @@ func SolveAll(all []*Obligation, solv *Solvers) {
 	var qi, pi []int
 	for i, o := range todo {
 		if o.Canary {
-			ps = append(ps, o.Query)
+			ps = append(ps, "")
 			pi = append(pi, i)
 		} else {
 			qs = append(qs, o.Query)
@@ -344,6 +347,9 @@ func SolveAll(all []*Obligation, solv *Solvers) {
 			ks := byName[n]
 			sort.SliceStable(ks, func(a, b int) bool {
 				oa, ob := todo[pi[ks[a]]], todo[pi[ks[b]]]
+				if oa.Late != ob.Late {
+					return !oa.Late
+				}
 				if oa.Rank != ob.Rank {
 					return oa.Rank > ob.Rank
 				}
@@ -356,7 +362,7 @@ func SolveAll(all []*Obligation, solv *Solvers) {
 			var batch []int
 			width := 3
 			if round > 2 {
-				width = 12
+				width = 12 << uint(min(round-3, 5))
 			}
 			for _, n := range names {
 				if settled[n] {
@@ -371,10 +377,20 @@ func SolveAll(all []*Obligation, solv *Solvers) {
 			if len(batch) == 0 {
 				break
 			}
-			var q2 []string
-			for _, k := range batch {
-				q2 = append(q2, ps[k])
+			q2 := make([]string, len(batch))
+			var wgb sync.WaitGroup
+			for j, k := range batch {
+				wgb.Add(1)
+				go func(j, k int) {
+					defer wgb.Done()
+					sem <- struct{}{}
+					o := todo[pi[k]]
+					o.Query = o.BuildQuery()
+					q2[j] = o.Query
+					<-sem
+				}(j, k)
 			}
+			wgb.Wait()
 			for j, r := range solv.SolveProbes(q2) {
 				rs[pi[batch[j]]] = r
 				if r.Result != "unsat" {
